@@ -116,11 +116,12 @@ def make_rows(p, d, num, groups, g):
 
 def mk_kernel(p):
     from xrfm.rfm_src.kernels import LaplaceKernel, ProductLaplaceKernel, LpqLaplaceKernel
+    kw = {'bandwidth_mode': 'adaptive'} if p.get('pending') else {}
     if p['kernel'] == 'l2':
-        return LaplaceKernel(bandwidth=p['L'], exponent=p['q'])
+        return LaplaceKernel(bandwidth=p['L'], exponent=p['q'], **kw)
     if p['kernel'] == 'product':
-        return ProductLaplaceKernel(bandwidth=p['L'], exponent=p['q'])
-    return LpqLaplaceKernel(bandwidth=p['L'], p=p['p'], q=p['q'])
+        return ProductLaplaceKernel(bandwidth=p['L'], exponent=p['q'], **kw)
+    return LpqLaplaceKernel(bandwidth=p['L'], p=p['p'], q=p['q'], **kw)
 
 
 def declare(K, num, groups):
@@ -341,6 +342,38 @@ def run_history(p, drv, res):
     res['sample'] = {'params': p, 'steps': [s[0] for s in steps], 'worst_diff_over_allowance': worst_ratio}
 
 
+def run_pending(p, drv, res):
+    """Adaptive mode with a pending adaptation: the first Gram-matrix call of either path adapts the bandwidth (base x median
+    distance of the transformed rows) and uses it; both paths must arrive at the same bandwidth and the same matrix."""
+    import numpy as np
+    d, num, groups, mat, x, _ = build(p)
+    try:
+        Kf = declare(mk_kernel(p), num, groups)
+        Kd = mk_kernel(p)
+        Kf._reset_adaptive_bandwidth()
+        Kd._reset_adaptive_bandwidth()
+    except Exception as e:  # noqa: BLE001
+        res['failures'].append({'signature': f'C15:raises:{type(e).__name__}', 'detail': f'adaptive kernel objects: {str(e)[:200]}'})
+        return
+    fast = guarded(res, f'{p["kernel"]} fast path, pending adaptation', lambda: Kf.get_kernel_matrix(x, x, mat))
+    dense = guarded(res, f'{p["kernel"]} dense, pending adaptation', lambda: Kd.get_kernel_matrix(x, x, None if mat is None else mat.clone()))
+    if fast is None or dense is None:
+        return
+    bf, bd = float(Kf.bandwidth), float(Kd.bandwidth)
+    if abs(bf - bd) > 1e-9 * abs(bd):
+        res['failures'].append({'signature': 'C15:fast-ne-dense:adapted-bandwidth', 'detail':
+                                f'{p["kernel"]} q={p["q"]} transform={p["transform"]}: the fast path adapted the bandwidth to {bf!r}, the dense path to {bd!r} (base {p["L"]})'})
+    else:
+        allow, _, _ = allowance_kernel(dict(p, L=bd), x, x, mat)
+        bad, (i, j) = worst(fast.numpy(), dense.numpy(), 2 * allow)
+        if bad.any():
+            res['failures'].append({'signature': 'C15:fast-ne-dense:pending-adaptation', 'detail':
+                                    f'{p["kernel"]} transform={p["transform"]}: fast[{i},{j}]={float(fast[i, j])!r} dense={float(dense[i, j])!r} after adaptation to {bd!r}'})
+    res['nontrivial'] = p if abs(bd / p['L'] - 1.0) > 1e-3 else None
+    res['dist'].update({'kernel': p['kernel'], 'transform': p['transform'], 'q': p['q'], 'pending_adaptation': True})
+    res['sample'] = {'params': p, 'adapted_bandwidth': [bf, bd]}
+
+
 def run_agop(p, drv, res):
     import numpy as np
     import torch
@@ -444,7 +477,7 @@ def run_model(p, drv, res):
     res['sample'] = {'params': p, 'max_abs_fast_minus_dense': float((kf - kd).abs().max())}
 
 
-RUNNERS = {'kernel': run_kernel, 'agop': run_agop, 'model': run_model, 'history': run_history}
+RUNNERS = {'kernel': run_kernel, 'agop': run_agop, 'model': run_model, 'history': run_history, 'pending': run_pending}
 
 
 def execute(chunk):
@@ -534,6 +567,11 @@ def gen_cases(run):
         if c['kernel'] == 'lpq' and c.get('p') is None:
             c['p'] = 1.5
         c['q'] = min(c['q'], c['p']) if c['kernel'] == 'lpq' else c['q']
+        cases.append(c)
+    # adaptive bandwidth with a pending adaptation (first Gram-matrix call adapts): both paths adapt alike
+    for k in range(18 if quick else 180):
+        c = random_case(r, k, 'pending', 'pending-adaptation')
+        c.update(pending=True, nx=r.randint(4, 30), nz=1, rank_deficient=False, zero_weight=False)
         cases.append(c)
     # histories on one kernel object (the transform changes in place between evaluations)
     for k in range(24 if quick else 240):
